@@ -169,7 +169,9 @@ class Ctx:
 
 IMS = ['absent', 'before', 'equal', 'after', 'garbage',
        # the other two HTTP-date spellings (RFC 7231 7.1.1.1) and the historic "; length=" suffix
-       'equal-850', 'equal-asctime', 'equal-length', 'after-850', 'after-asctime', 'before-850', 'before-asctime']
+       'equal-850', 'equal-asctime', 'equal-length', 'after-850', 'after-asctime', 'before-850', 'before-asctime',
+       # a date far ahead of the server's clock (a client whose clock runs ahead; a file stamped in the future)
+       'future']
 
 
 def http_date(ts, form):
@@ -189,12 +191,14 @@ def ims_value(kind, mtime=MTIME):
         return None
     if kind == 'garbage':
         return 'yesterday-ish'
+    if kind == 'future':
+        return 'Fri, 01 Jan 2100 00:00:00 GMT'
     rel, _, form = kind.partition('-')
     return http_date(mtime + {'before': -1, 'equal': 0, 'after': 1}[rel], form)
 
 
 ZONES = ['CET-1CEST,M3.5.0,M10.5.0/3', 'EST5EDT,M3.2.0,M11.1.0', 'IST-5:30', 'NZST-12NZDT,M9.5.0,M4.1.0/3', 'UTC0']
-SEASONS = {'july': 1625140800, 'january': 1610712000, 'epoch': 0, 'day-before-epoch': -86400}     # (checkouts and reproducible archives carry mtime 0)
+SEASONS = {'july': 1625140800, 'january': 1610712000, 'epoch': 0, 'day-before-epoch': -86400, 'year-2039': 2177452800}     # (checkouts and reproducible archives carry mtime 0)
 
 
 def judge(c, n, rng, ims_kind, method, buf):
@@ -205,7 +209,7 @@ def judge(c, n, rng, ims_kind, method, buf):
         return 'wsgi', '; '.join(probs[:2])
     code = c.code
     body = c.body
-    if ims_kind.startswith(('equal', 'after')):
+    if ims_kind.startswith(('equal', 'after', 'future')):
         if code != 304 or body:
             return 'ims', f'If-Modified-Since {ims_kind} mtime answered {code} with {len(body)} body bytes, expected an empty 304'
         return None
